@@ -120,6 +120,21 @@ def monitor(case):
                 for k in range(sp.nv):
                     sp.set(('v', l, k), 0)
             continue
+        if a['api'] in ('sload', 'vload'):
+            # load replies: written into the timing register files by the compute unit's reply handlers
+            # (not through the wavefront's accessor); the emulator writes the same operand
+            cnt = len(a['data']) // 4 if a['api'] == 'sload' else a['cnt']
+            lanes = [0] if a['api'] == 'sload' else a['lanes']
+            for side in sides:
+                sp = spec[side][a['w']]
+                if a[side].get('panic'):
+                    return 'access %d: %s reply write-back (%s%d x%d) of wavefront %d panicked' % (i, a['api'], a['reg'], a['idx'], cnt, a['w'])
+                for k, lane in enumerate(lanes):
+                    cells = cells_of(a['reg'], a['idx'], cnt, lane, sp.ns, sp.nv)
+                    if cells is None:
+                        return None
+                    sp.write_bytes(cells, a['data'][4 * cnt * k:4 * cnt * (k + 1)])
+            continue
         for side in sides:
             sp = spec[side][a['w']]
             cells = cells_of(a['reg'], a['idx'], a['cnt'], a.get('lane', 0), sp.ns, sp.nv)
@@ -148,6 +163,9 @@ def monitor(case):
                 if a['api'] == 'rb':
                     exp = exp[:a.get('bc', 0)]
                     got = obs.get('bytes', [])
+                    if obs.get('mutated'):
+                        return ('access %d: the bytes returned by %s (%s) changed to %s while the caller still held them '
+                                '(the result aliases storage or another answer)' % (i, what, bytes(obs.get('first', [])).hex(), bytes(got).hex()))
                     if got != exp:
                         return 'access %d: %s returned %s, the cells hold %s' % (i, what, bytes(got).hex(), bytes(exp).hex())
                 else:
@@ -158,12 +176,19 @@ def monitor(case):
     for w, d in enumerate(case.get('emu_end') or []):
         sp = spec['emu'][w]
         exp = sp.changed()
+        n_exp = sum(1 for c in exp if c[0] in 'sv')
+        if d.get('ns', len(d['s'])) + d.get('nv', len(d['v'])) != n_exp:
+            return ('final state of emulator wavefront %d: %d scalar and %d vector registers differ from the initial fill, the cells say %d'
+                    % (w, d.get('ns', len(d['s'])), d.get('nv', len(d['v'])), n_exp))
+        truncated = d.get('ns', 0) > len(d['s']) or d.get('nv', 0) > len(d['v'])
         got = {('s', i): v for i, v in d['s']}
         got.update({('v', l, i): v for l, i, v in d['v']})
         for name, v in (('vcclo', d['vcc'] & 0xffffffff), ('vcchi', d['vcc'] >> 32), ('execlo', d['exec'] & 0xffffffff),
                         ('exechi', d['exec'] >> 32), ('scc', d['scc']), ('m0', d['m0'])):
             if v != init_cell(w, (name,)):
                 got[(name,)] = v
+        if truncated:   # the dump lists only the first cells: every listed one must be as the cells say (the totals agree)
+            exp = {c: v for c, v in exp.items() if c in got or c[0] not in 'sv'}
         if got != exp:
             diff = sorted(set(got.items()) ^ set(exp.items()), key=str)[:4]
             return 'final state of emulator wavefront %d differs from the cells: %s' % (w, diff)
@@ -187,8 +212,16 @@ def monitor(case):
                             ('exechi', t['exec'][w] >> 32), ('scc', t['scc'][w]), ('m0', t['m0'][w])):
                 if v != sp.get((name,)):
                     return 'final %s of timing wavefront %d is 0x%x, the cell holds 0x%x' % (name, w, v, sp.get((name,)))
+        ns, nv = t.get('ns', len(t['s'])), t.get('nv', len(t['v']))
+        if ns != len(exp_s) or nv != len(exp_v):
+            return ('final register files: %d bytes of the scalar file and %d bytes of the vector files differ from the initial fill, '
+                    'the cells say %d and %d' % (ns, nv, len(exp_s), len(exp_v)))
         got_s = {a: b for a, b in t['s']}
         got_v = {(s, a): b for s, a, b in t['v']}
+        if ns > len(got_s):     # truncated dump: the listed bytes must be as the cells say (the totals agree)
+            exp_s = {a: b for a, b in exp_s.items() if a in got_s}
+        if nv > len(got_v):
+            exp_v = {a: b for a, b in exp_v.items() if a in got_v}
         if got_s != exp_s:
             diff = sorted(set(got_s.items()) ^ set(exp_s.items()))[:4]
             return 'final scalar register file differs from the cells at (byte address, byte) %s' % diff
@@ -200,7 +233,7 @@ def monitor(case):
 
 # ---------------------------------------------------------------- plumbing
 
-IN_KEYS = ('w', 'side', 'api', 'reg', 'idx', 'cnt', 'lane', 'bc', 'data', 'val')
+IN_KEYS = ('w', 'side', 'api', 'reg', 'idx', 'cnt', 'lane', 'bc', 'data', 'val', 'lanes')
 
 
 def strip(case):
@@ -230,7 +263,7 @@ def nontrivial(case):
         return False
     written = set()
     for a in case['accs']:
-        if a['api'] == 'reset':
+        if a['api'] in ('reset', 'sload', 'vload'):
             continue
         cells = cells_of(a['reg'], a['idx'], a['cnt'], a.get('lane', 0), 102, 256)
         if cells is None:
@@ -290,7 +323,7 @@ def main(argv):
                        'inside the register files; histories are arbitrary finite lists',
                        'sampled histories only decide whether the real code still behaves like the models']
     thorough = vlib.tier() == 'thorough'
-    n = 4000 if thorough else 400
+    n = 4000 if thorough else 350
 
     replay_file = argv[argv.index('--replay') + 1] if '--replay' in argv else None
 
